@@ -45,7 +45,11 @@ def parse_race_reports(paths):
 # report in query evaluation is the hammer that exercises that code, not the whole run
 X_EMPTY_PAGED = "boltz.BaseStore.QueryIdsC/empty-filter-with-own-paging"
 X_DOTTED = "boltz.BaseStore.QueryIds/dotted-symbols-and-subqueries"
+X_EXT = "boltz.ExternalSymbol/filters-and-sorts-at-every-place"
+X_IDX = "boltz.indexes/reads-of-different-keys-at-every-base-path-depth"
 RACE_HINTS = [
+    (("ExternalSymbol", "FuncSymbol"), X_EXT),
+    (("setIndex", "uniqueIndex", "fkIndex", "linkCollectionImpl", "LinkedSetSymbol", "Indexer"), X_IDX),
     (("compositeEntity", "stackedCursor", "EntitySetSymbol", "entitySetSymbol", "GetSymbol"), X_DOTTED),
     (("queryNode", "setPaging", "LimitExprNode", "SkipExprNode", "SortByNode"), X_EMPTY_PAGED),
 ]
@@ -91,11 +95,11 @@ def main(argv):
         "translators/access (Go, go/packages): reading of the Go AST/types; its rules for write / synchronised / call graph (design/C18.md)",
         "the Go memory model and the race detector: a data race is not expressible in Gallina; the theorem is about the access table, the -race run supplies schedules",
         "extraction (ExtrOcamlBasic only) + extraction/c18_driver.ml + drv_common.ml",
-        "Go harness cmd/storageharness/c18.go, c17_stores.go and this comparison",
+        "Go harness cmd/storageharness/c18.go, c18_s2.go, c17_stores.go and this comparison",
     ]
     c.assumptions = [
         "one writer at a time (bbolt serialises write transactions)",
-        "accesses to struct fields reachable from several goroutines (store symbol maps, index lists) are outside the access table; they are covered by the race detector run only",
+        "the access table covers package-level variables, fields of the store, variables captured by function literals stored in struct fields and appends on shared slices (translator rules: design/C18.md); other writes to objects reachable from several goroutines are covered by the race detector run only",
         "a once-guarded write is ordered before the reads that follow the same Once.Do (true of the generated ANTLR static data)",
     ]
     proof_ok = c.proof_step(FILES, translators=["access"])
@@ -173,9 +177,14 @@ def main(argv):
         f = cases[k].split()
         ver = int(f[3])
         lines = [cases[j] for j in committed[:ver]]
-        if f[4] in ("list", "glist", "all", "page"):
+        kind = f[6] if f[4] == "at" and len(f) > 6 else f[4]   # "at <place> <query>": the family the query addresses
+        if kind in ("list", "glist", "all", "page"):
             lines += ["Q 0 0 %d list 2 1" % ver, cases[k], "Q 0 0 %d all" % ver, "Q 0 0 %d glist -1 -1" % ver, "X " + X_EMPTY_PAGED]
-        elif f[4] in ("f4", "f5", "f6", "f7", "f8", "wcount", "subhas", "subcount", "gname", "gtag", "gwtag", "gsub"):
+        elif kind in ("xb", "xbs", "xs", "xss", "xg", "xw", "gxb"):
+            lines += [cases[k], "X " + X_EXT]
+        elif kind in ("tag", "tagc", "tagkeys", "name", "gidx", "gitems", "links", "rlinks", "linked"):
+            lines += [cases[k], "X " + X_IDX]
+        elif kind in ("f4", "f5", "f6", "f7", "f8", "wcount", "subhas", "subcount", "gname", "gtag", "gwtag", "gsub"):
             # the serial re-execution gives the serial answer by construction; the concurrent counterpart is
             # the hammer of the same filters (many read transactions at once on a fixed population)
             lines += [cases[k], "X " + X_DOTTED]
@@ -245,7 +254,7 @@ def main(argv):
         pb = c.proof_broken or {}
         if conflicts and any(v[0].startswith("C18:data-race") for v in c.violations):
             vlib.log("  (helpers_no_conflicting_access does not hold for the regenerated table: %s - the race run above is its failing schedule)"
-                     % "; ".join("%s/%s on %s" % x[:3] for x in conflicts[:4]))
+                     % "; ".join("%s/%s on %s (%s)" % x for x in conflicts[:3]))
         else:
             c.violation("C18:proof", "proof obligation no longer checks (%s)%s" % (
                 json.dumps(pb)[:500], "; conflicting accesses in the generated table: %s" % conflicts[:4] if conflicts else ""),
